@@ -185,6 +185,43 @@ def run(db, tier):
     emits = any(t.get("f", "").endswith("::emit") for _, t in wi.calls())
     rep.check(bool(gi) and emits, "R-LOOKUP", "write_instance|missing-object->error", wi.loc, "the object index is its position in the written object map; a missing name is an error",
               "write_instance does not look the object up with get_index_of / report missing names")
+    # ---------------- R-TIMELINE-INDEX: index of each old-ECL timeline (symbolic evaluation of the numbering loop)
+    from rules import symeval as SY
+    rep.rule("R-TIMELINE-INDEX", "get_and_validate_timeline_indices gives a timeline its explicit number (only if it is not negative; a negative one is an "
+                                 "error and yields no index) or else the current value of a counter that it then increments by one: automatic numbers "
+                                 "are 0, 1, 2, .. in file order (linear normal form of the pushed value and of the counter update)")
+    SY.set_aliases([])
+    tf = db.fn("formats::ecl::ecl_06::get_and_validate_timeline_indices")
+    rep.fn(tf)
+    tps = [p_ for p_ in SY.fn_paths(db, tf.id, sinks=("timeline_indices",), effect_calls=("ErrorFlag::set",)) if p_[2] is None]
+    loops = [e for p_ in tps[:1] for e in p_[1] if e[0] == "loop" and e[1] == "items"]
+    ok_auto = ok_expl = ok_neg = False
+    why = "the numbering loop over `items` was not found"
+    if loops:
+        why = ""
+        for conds, events, fl in loops[0][2]:
+            cd = dict((k, v) for k, v, _ in conds)
+            arm = [v for k, v in cd.items() if k.startswith("match each(items).number ")]
+            emits = [e for e in events if e[0] == "emit"]
+            sets = dict((e[1], e[2]) for e in events if e[0] == "set")
+            neg = [v for k, v in cd.items() if k == "(each(items).number.Some.0 < 0)"]
+            if arm == ["None"] and emits:
+                lf = SY.linear_form(emits[0][1])
+                upd = SY.linear_form(sets["next_auto_number"]) if "next_auto_number" in sets else None
+                ok_auto = lf == {"next_auto_number": 1} and upd == {"next_auto_number": 1, 1: 1}
+                if not ok_auto:
+                    why += "automatic index is %s and the counter becomes %s; " % (SY.render(emits[0][1]), SY.render(sets.get("next_auto_number", ("lit", "unchanged"))))
+            elif arm and arm[0].startswith("Some") and emits:
+                good = SY.render(emits[0][1]) == "each(items).number.Some.0" and neg == [False]
+                ok_expl = ok_expl or good
+                if not good:
+                    why += "explicit index %s is taken under %s; " % (SY.render(emits[0][1]), sorted(cd.items()))
+                    ok_expl = False
+            elif arm and arm[0].startswith("Some") and not emits and neg == [True]:
+                ok_neg = any(e[0] == "effect" and e[1] == "set" for e in events)
+    rep.check(ok_auto, "R-TIMELINE-INDEX", "auto|counter value, then +1", tf.loc, "automatic index = counter; counter += 1", why or "no automatic-index path found")
+    rep.check(ok_expl, "R-TIMELINE-INDEX", "explicit|number itself, non-negative only", tf.loc, "explicit index = the number, only when it is >= 0", why or "no explicit-index path found")
+    rep.check(ok_neg, "R-TIMELINE-INDEX", "negative|error, no index", tf.loc, "a negative number is an error and produces no index", why or "the negative-number path does not set the error flag")
     # ---------------- R-WRITE-ORDER: things are written in the order in which they were numbered
     rep.rule("R-WRITE-ORDER", "the writer functions of src/formats emit scripts / sprites / subs / objects in the order of the in-memory tables "
                               "(the order the compile-time ids were taken from): no sort, reverse, swap or de-duplication happens between the table and the file")
